@@ -225,6 +225,7 @@ class ModuleResult:
         self.mism_cycles = 0
         self.fit_cycles = 0
         self.kept_full_slices = 0   # slices covering exactly a node that can be negative (must survive the lowering)
+        self.reset_modelled = 0     # clock domains whose reset insertion was done by the Lean model (insertReset)
 
 
 def stimulus(rng, inputs, rsts, prev, t):
@@ -242,20 +243,45 @@ def stimulus(rng, inputs, rsts, prev, t):
     return vals
 
 
-def run_module_case(lean, rng, name, build, cycles, dis, with_orig=True, fuel=64):
-    """build() -> (fragment-or-module, ios list, clock-domain names); deterministic (called twice)."""
+def run_module_case(lean, rng, name, build, cycles, dis, with_orig=True, fuel=64, variant="synth", convert_kw=None,
+                    capture=None):
+    """build() -> (fragment-or-module, ios list, clock-domain names); deterministic (called twice).
+    variant "sim": the text is emitted with convert(regular_comb=False) (one comb item per target) and tied to the
+    Lean model of `_generate_combinatorial_logic_sim` / `_generate_node(target_filter)` (printModuleSim)."""
     from migen.fhdl.tools import list_targets, list_special_ios
     res = ModuleResult(name)
     try:
         fB, iosB, cds = build()
-        cap = L.convert_capture(fB, iosB)
+        kw = dict(convert_kw or {})
+        if variant == "sim":
+            kw["regular_comb"] = False
+        if capture is not None:
+            # convert reached through glue (e.g. Platform.get_verilog): the ios are whatever the glue collected
+            cap = capture(fB, kw)
+            iosB = sorted(cap.ios, key=lambda s_: s_.duid)
+            kw = dict(kw, name=cap.name)
+        else:
+            cap = L.convert_capture(fB, iosB, **kw)
         ids, sigs, groups, secs = L.ser_module(cap)
         name_ids = {cap.ns.get_name(s): ids.get(s) for s in sigs}
         mt = L.parse_module(cap.text, name_ids)
+        if variant == "sim" and not mt.unsupported and not mt.blocking:
+            ids, sigs, groups, secs = L.ser_module(cap, "sim", L.sim_target_order(mt))
+        # keyword options that only shape the prolog / module header
+        want_name = kw.get("name", "top")
+        if mt.name != want_name:
+            dis.append(Dis("module-header", module=name, expected=want_name, text=mt.name,
+                           what="the emitted module is not named as convert(name=...) asked"))
+        ts = "`timescale %s / %s\n" % (kw.get("time_unit", "1ns"), kw.get("time_precision", "1ps"))
+        if cap.text.count("`timescale") != 1 or ts not in cap.text[:cap.text.index("module " + mt.name)]:
+            dis.append(Dis("module-header", module=name, expected=ts.strip(),
+                           what="the `timescale directive is not the one convert(time_unit, time_precision) asked"))
         if mt.unsupported:
             raise L.Unsupported("; ".join(mt.unsupported[:3]))
         if mt.blocking:
             raise L.Unsupported("blocking assignment (variable signal): read by the independent reader only")
+        if mt.systasks:
+            raise L.Unsupported("system task ($display/$finish): read by the independent reader only")
         items, decls = L.ser_vmodule(mt, name_ids)
     except L.Unsupported as ex:
         res.status = "unsupported: " + str(ex)[:120]
@@ -266,6 +292,7 @@ def run_module_case(lean, rng, name, build, cycles, dis, with_orig=True, fuel=64
         return res
     f = cap.f
     res.nsigs = len(sigs)
+    res.reset_modelled = getattr(cap, "reset_modelled", 0)
     targets = list_targets(f) | list_special_ios(f, ins=False, outs=True, inouts=True)
     clks = [cd.clk for cd in f.clock_domains]
     rsts = [cd.rst for cd in f.clock_domains if cd.rst is not None]
@@ -320,8 +347,9 @@ def run_module_case(lean, rng, name, build, cycles, dis, with_orig=True, fuel=64
     if orig_vs_low is not None:
         dis.append(Dis("lowering", module=name, what="real Evaluator on the original design differs from the real "
                        "Evaluator on the lowered fragment that was printed", **orig_vs_low))
-    line = "sim %d ; %s ; %s ; %s ; %s ; %s ; %s ; %s ; %s ; %s" % (
-        fuel, " ".join(secs["sigs"]), " ".join(secs["comb"]), " ".join(secs["sync"]), " ".join(items),
+    line = "sim %d%s%s ; %s ; %s ; %s ; %s ; %s ; %s ; %s ; %s ; %s" % (
+        fuel, " sim" if variant == "sim" else "", " noinit" if kw.get("regs_init") is False else "",
+        " ".join(secs["sigs"]), " ".join(secs["comb"]), " ".join(secs["sync"]), " ".join(items),
         " ".join(decls),
         " ".join([str(len(cap.ios))] + [str(ids.get(s)) for s in sorted(cap.ios, key=lambda s: s.duid)]),
         " ".join([str(len(inputs))] + [str(ids.get(s)) for s in inputs]),
@@ -466,10 +494,10 @@ def signed_full_slices(stmt_lists):
     return found
 
 
-def random_module_build(seed, maxw, tame=False):
+def random_module_build(seed, maxw, tame=False, sim_variant=False):
     def build():
         rng = random.Random(seed)
-        m, ios = L.random_module(rng, maxw=maxw, tame=tame)
+        m, ios = L.random_module(rng, maxw=maxw, tame=tame, sim_variant=sim_variant)
         f = m.get_fragment()
         ios = sorted(ios, key=lambda s: s.duid)
         return f, ios, [cd.name for cd in f.clock_domains]
@@ -484,9 +512,13 @@ def l2_random(ctx, n_mod, cycles, dis):
         seed = rng.randrange(1 << 30)
         tame = k % 3 != 0
         mw = rng.choice([3, 5, 9, 9, 40 if k % 2 else 5])
+        # every third module goes through the simulation-flavoured comb emitter (regular_comb=False: one filtered
+        # always block per target), tied to printModuleSim
+        simv = k % 3 == 1
         try:
-            r = run_module_case(ctx.lean, rng, "randmod%d%s" % (k, "t" if tame else "w"),
-                                random_module_build(seed, mw, tame), cycles, dis)
+            r = run_module_case(ctx.lean, rng, "randmod%d%s%s" % (k, "t" if tame else "w", "-sim" if simv else ""),
+                                random_module_build(seed, mw, tame, simv), cycles, dis,
+                                variant="sim" if simv else "synth")
         except Exception as ex:      # a changed printer/simulator that crashes or never settles: reported, not fatal
             traceback.print_exc()
             dis.append(Dis("module-exception", module="randmod%d" % k, seed=seed, maxw=mw, tame=tame, error=repr(ex)[:300]))
@@ -494,6 +526,8 @@ def l2_random(ctx, n_mod, cycles, dis):
         tot["modules"] += 1
         if r.status.startswith("unsupported"):
             tot["unsupported"] += 1
+        if simv and not r.status.startswith("unsupported"):
+            tot["sim_backend_modules"] = tot.get("sim_backend_modules", 0) + 1
         tot["cycles"] += r.cycles
         tot["fit_cycles"] += r.fit_cycles
         tot["mism_cycles"] += r.mism_cycles
@@ -501,6 +535,7 @@ def l2_random(ctx, n_mod, cycles, dis):
         tot["static_nonfit"] += len(r.static_sites)
         tot["witnessed"] += len(r.witnessed)
         tot["kept_full_slices"] += r.kept_full_slices
+        tot["reset_insertions_modelled"] = tot.get("reset_insertions_modelled", 0) + r.reset_modelled
         if len(dis) > 10:
             break
     ctx.cov.add_cases("L2 random modules (%d, %d cycles each, all signals compared)" % (n_mod, cycles),
@@ -508,6 +543,108 @@ def l2_random(ctx, n_mod, cycles, dis):
     for k, v in tot.items():
         ctx.cov.count("l2rand." + k, v)
     ctx.log("L2 random modules: %s" % tot)
+
+
+# ---- convert() keyword options -------------------------------------------------------------------------------
+
+def override_module_build(seed):
+    """A design with specials that `lower_specials` replaces through `special_overrides` (the mechanism platforms
+    use): two MultiRegs, one of them overridden by a class of the same behaviour built from different statements."""
+    def build():
+        from migen import Module, Signal, ClockDomain, If
+        from migen.genlib.cdc import MultiReg
+        rng = random.Random(seed)
+        m = Module()
+        m.clock_domains.cd_sys = ClockDomain("sys")
+        w = rng.randint(1, 6)
+        i0 = Signal(w, name_override="i0")
+        i1 = Signal(name_override="i1")
+        o0 = Signal(w, name_override="o0", reset=rng.randrange(1 << w))
+        o1 = Signal(w, name_override="o1")
+        acc = Signal(w + 1, name_override="acc")
+        m.specials += MultiReg(i0, o0, "sys", n=rng.randint(2, 3), reset=o0.reset.value)
+        m.sync += If(i1, acc.eq(acc + o0)).Else(acc.eq(acc - 1))
+        m.comb += o1.eq(acc[1:] ^ o0)
+        ios = [i0, i1, o0, o1, m.cd_sys.clk, m.cd_sys.rst]
+        f = m.get_fragment()
+        return f, sorted(ios, key=lambda s_: s_.duid), ["sys"]
+    return build
+
+
+def multireg_override():
+    from migen import Module, Signal, ClockSignal
+    from migen.genlib.cdc import MultiReg
+
+    class ShiftMultiRegImpl(Module):
+        """Same behaviour as migen's MultiRegImpl, written as one concatenated shift register."""
+        def __init__(self, i, o, odomain, n, reset=0):
+            from migen import Cat
+            w = len(i)
+            regs = [Signal(w, reset=reset, reset_less=True, name_override="ovr%d" % k) for k in range(n)]
+            sd = getattr(self.sync, odomain)
+            sd += [regs[0].eq(i)] + [regs[k].eq(regs[k - 1]) for k in range(1, n)]
+            self.comb += o.eq(regs[-1])
+
+    class ShiftMultiReg:
+        @staticmethod
+        def lower(dr):
+            return ShiftMultiRegImpl(dr.i, dr.o, dr.odomain, dr.n, dr.reset)
+    return {MultiReg: ShiftMultiReg}
+
+
+def l2_option_variants(ctx, n_mod, cycles, dis):
+    """The keyword options of convert() other than the defaults, each through the same tie as the default variant
+    (model printer vs text node by node, Lean Verilog semantics on the real text vs stepF vs the real Evaluator):
+    regs_init=False (no initialisers), regular_comb=False, both, name/time_unit/time_precision, attr_translate
+    with translated / dropped / platform (tuple) attributes, platform=, special_overrides."""
+    from litex.build.sim.platform import SimPlatform
+    rng = ctx.rng
+    tot = dict(modules=0, unsupported=0, cycles=0, fit_cycles=0)
+    for k in range(n_mod):
+        seed = rng.randrange(1 << 30)
+        kind = k % 6
+        variant = "sim" if kind in (1, 2) else "synth"
+        build = random_module_build(seed, rng.choice([3, 5, 9]), True, variant == "sim")
+        with_orig = True
+        if kind == 0:
+            kw = dict(regs_init=False)
+        elif kind == 1:
+            kw = dict(regs_init=False)
+        elif kind == 2:
+            kw = dict(name="dut_%d" % k, time_unit="10ns", time_precision="100ps")
+        elif kind == 3:
+            kw = dict(name="v%d" % k, time_unit="1ps", time_precision="1fs")
+        elif kind == 4:
+            inner = build
+
+            def build(inner=inner):
+                f, ios, cds = inner()
+                for j, s_ in enumerate(ios):
+                    s_.attr.add(["keep", "no_retiming", ("syn_preserve", 1), ("mark", "x y")][j % 4])
+                return f, ios, cds
+            kw = dict(attr_translate={"keep": ("keep", "true"), "no_retiming": None})
+        else:
+            build = override_module_build(seed)
+            kw = dict(platform=SimPlatform("SIM", [("clk", 0, __import__("litex.build.generic_platform", fromlist=["Pins"]).Pins(1))]),
+                      special_overrides=multireg_override())
+        try:
+            r = run_module_case(ctx.lean, rng, "optmod%d-%s" % (k, "+".join(sorted(kw))), build, cycles, dis,
+                                with_orig=with_orig, variant=variant, convert_kw=kw)
+        except Exception as ex:
+            traceback.print_exc()
+            dis.append(Dis("module-exception", module="optmod%d" % k, seed=seed, options=sorted(kw), error=repr(ex)[:300]))
+            continue
+        tot["modules"] += 1
+        if r.status.startswith("unsupported"):
+            tot["unsupported"] += 1
+        tot["cycles"] += r.cycles
+        tot["fit_cycles"] += r.fit_cycles
+        tot["opt." + "+".join(sorted(kw))] = tot.get("opt." + "+".join(sorted(kw)), 0) + (0 if r.status.startswith("unsupported") else 1)
+        if len(dis) > 10:
+            break
+    ctx.cov.add_cases("L2 convert() option variants (regs_init, regular_comb, name/timescale, attr_translate, platform + "
+                      "special_overrides), same tie as the default variant", tot["cycles"], tot["fit_cycles"], exhaustive=False)
+    ctx.log("convert() option variants: %s" % tot)
 
 
 # ---- real cores ------------------------------------------------------------------------------------------
@@ -699,6 +836,7 @@ def l2_cores(ctx, cycles, dis):
         tot["signals"] += r.nsigs
         tot["static_nonfit"] += len(r.static_sites)
         tot["witnessed"] += len(r.witnessed)
+        tot["reset_insertions_modelled"] = tot.get("reset_insertions_modelled", 0) + r.reset_modelled
         entries = {}
         for kind, text in r.static_sites:
             key = "%s: %s" % (kind, text)
@@ -740,6 +878,40 @@ def l2_cores(ctx, cycles, dis):
                    "a VIOLATION.  Regenerate with C01_WRITE_SITES=1 ./check C01 after reviewing the new sites.",
                    "sites": found}, open(SITES_FILE, "w"), indent=1, sort_keys=True)
         ctx.log("wrote " + SITES_FILE)
+
+
+def l2_cores_sim(ctx, cycles, dis, stride):
+    """Real cores converted with regular_comb=False (what litex_sim / Verilator builds use), tied to printModuleSim
+    like the default variant.  Cores whose comb logic assigns to a concatenation of several signals are outside the
+    tied subset of the per-target emitter (counted as `cat_target`)."""
+    tot = dict(cores=0, tied=0, cat_target=0, unsupported=0, cycles=0, fit_cycles=0, mism_cycles=0)
+    for k, (name, mk) in enumerate(core_builders(ctx.tier)):
+        if k % stride != stride // 2:
+            continue
+        try:
+            r = run_module_case(ctx.lean, ctx.rng, name + " [regular_comb=False]", core_build(mk), cycles, dis,
+                                with_orig=False, variant="sim")
+        except Exception as ex:
+            traceback.print_exc()
+            dis.append(Dis("core-exception", module=name, variant="sim", error=repr(ex)[:300]))
+            continue
+        tot["cores"] += 1
+        if "sim back-end" in r.status:
+            tot["cat_target"] += 1
+        elif not r.status.startswith("ok"):
+            tot["unsupported"] += 1
+        else:
+            tot["tied"] += 1
+            tot["cycles"] += r.cycles
+            tot["fit_cycles"] += r.fit_cycles
+            tot["mism_cycles"] += r.mism_cycles
+        if len(dis) > 10:
+            break
+    ctx.cov.add_cases("L2 real cores through the simulation comb emitter (regular_comb=False), Lean tie", tot["cycles"],
+                      tot["fit_cycles"], exhaustive=False)
+    for k, v in tot.items():
+        ctx.cov.count("l2cores_sim." + k, v)
+    ctx.log("L2 real cores, regular_comb=False: %s" % tot)
 
 
 # ----------------------------------------------------------------------------------------------------------
@@ -1073,6 +1245,52 @@ def platform_glue_case(rng, cycles, regular_comb):
     return cycles, None
 
 
+def platform_glue_lean(ctx, cycles, dis):
+    """The same small platform design, converted by `SimPlatform.get_verilog` with both comb emitters, through the
+    Lean tie (model printer vs text, Lean Verilog semantics on the text vs stepF vs real Evaluator)."""
+    from migen import Module, Signal, ClockDomain, If, Cat, Case
+    from litex.build.generic_platform import Pins, Subsignal
+    from litex.build.sim.platform import SimPlatform
+    io = [("sys_clk", 0, Pins(1)), ("sys_rst", 0, Pins(1)), ("user_led", 0, Pins(5)), ("user_btn", 0, Pins(3)),
+          ("bus", 0, Subsignal("dat", Pins(40)), Subsignal("stb", Pins(1)), Subsignal("ack", Pins(1)))]
+    n = 0
+    for regular_comb in (True, False):
+        holder = {}
+
+        def build():
+            plat = SimPlatform("SIM", io)
+            m = Module()
+            m.clock_domains.cd_sys = ClockDomain("sys")
+            clk, rst = plat.request("sys_clk"), plat.request("sys_rst")
+            led, btn, bus = plat.request("user_led"), plat.request("user_btn"), plat.request("bus")
+            m.comb += [m.cd_sys.clk.eq(clk), m.cd_sys.rst.eq(rst)]
+            cnt = Signal(40, reset=(1 << 39) | 5)
+            sel = Signal(2)
+            m.sync += [If(bus.stb, cnt.eq(cnt + Cat(btn, btn[0:2]))), bus.ack.eq(bus.stb & ~bus.ack), sel.eq(sel + 1)]
+            # several targets under shared control structure + a later override (per-target filtering matters)
+            m.comb += [Case(sel, {0: [led.eq(cnt[35:40])], "default": [led.eq(cnt[0:5] ^ Cat(btn, btn[0:2])), bus.dat.eq(cnt)]}),
+                       If(btn[0], led.eq(0x15)).Else(bus.dat[0:8].eq(0xa5))]
+            holder["plat"] = plat
+            return m.get_fragment(), [], ["sys"]
+
+        def capture(f, kw, regular_comb=regular_comb):
+            plat = holder["plat"]
+            cap = L.convert_capture(f, (), via=lambda: plat.get_verilog(f, name="sim", regular_comb=regular_comb))
+            cap.name = "sim"
+            return cap
+        try:
+            r = run_module_case(ctx.lean, ctx.rng, "platform-glue regular_comb=%s" % regular_comb, build, cycles, dis,
+                                with_orig=False, variant="synth" if regular_comb else "sim", capture=capture)
+            n += r.cycles
+            if not r.status.startswith("ok"):
+                dis.append(Dis("platform-glue", status=r.status, regular_comb=regular_comb,
+                               what="the design converted through SimPlatform.get_verilog is outside the tied subset"))
+        except Exception as ex:
+            traceback.print_exc()
+            dis.append(Dis("module-exception", module="platform-glue", regular_comb=regular_comb, error=repr(ex)[:300]))
+    return n
+
+
 # ----------------------------------------------------------------------------------------------------------
 # Instances: the text emitted by litex/gen/fhdl/instance.py against the Instance items (module name, instance
 # name, every parameter with its value, every port with its connection, order inputs/outputs/inouts)
@@ -1134,6 +1352,112 @@ def instance_text_check(rng, n_inst, lean=None):
             prob.update(oracle="instance-text", instance_text=body[body.index("FOO"):][:1500] if "FOO" in body else body[:600])
             return checked, prob
     return checked, None
+
+
+def systask_text_check(rng, n_mod, cycles):
+    """`Display` / `Finish` statements (`$display("fmt", args...)` / `$finish;` in `_generate_node`) and the hierarchy
+    comment block (`LiteXContext.top` set, as a SoC build does): a safe module with Display / Finish statements nested
+    in If / Case of its `sys` domain; the real simulator on the design (Display prints `fmt % values` from the
+    pre-edge values; reaching a Finish raises in `Evaluator.execute`) against the independent reading of the text
+    ($display records format + argument values, $finish sets a flag), every cycle: same lines in the same order, same
+    cycle of the first Finish, same port values.  Returns (cycles, failing input or None)."""
+    import io
+    import contextlib
+    from migen import If, Case, Display, Finish
+    from litex.gen.context import LiteXContext
+    from c01lib import Netlist
+    n = 0
+    systask_text_check.lines = 0          # lines displayed on both sides (coverage of the comparison)
+    systask_text_check.finishes = 0
+    for k in range(n_mod):
+        seed = rng.randrange(1 << 30)
+
+        def build():
+            r = random.Random(seed)
+            m, ios = safe_module(r)
+            sg = sorted(ios, key=lambda s_: s_.duid)
+            by = lambda pfx: [s_ for s_ in sg if (s_.name_override or "").startswith(pfx) and (s_.name_override or "")[1:].isdigit()]
+            ins, regs, sins = by("i"), by("r"), by("t")
+            args = [r.choice(regs), r.choice(ins)] + ([r.choice(sins)] if sins else [])
+            fmt = " ".join("%s=%%d" % a.name_override for a in args) + " #%d" % k
+            st = [If(ins[0][0] & ~ins[-1][0], Display(fmt, *args)),
+                  Case(ins[0][0:1], {1: [Display("one %d", regs[0])], "default": [If(regs[-1][0], Display("dflt"))]}),
+                  If(ins[0][0] & ins[-1][0] & (regs[0][0] == r.randrange(2)), Finish())]
+            r.shuffle(st)
+            m.sync += st
+            f = m.get_fragment()
+            return m, f, sg, [cd.name for cd in f.clock_domains]
+        mA, fA, iosA, cdsA = build()
+        mB, fB, iosB, cdsB = build()
+        what = "Display/Finish text vs simulator"
+        try:
+            LiteXContext.top = mB if k % 2 else None
+            try:
+                cap = L.convert_capture(fB, iosB)
+            finally:
+                LiteXContext.top = None
+            sigs = L.module_signals(cap)
+            ids = SigIds()
+            for s_ in sigs:
+                ids.get(s_)
+            name_ids = {cap.ns.get_name(s_): ids.get(s_) for s_ in sigs}
+            mt = L.parse_module(cap.text, name_ids)
+            if mt.unsupported:
+                return n, {"oracle": "systask", "seed": seed, "what": "text outside the readable subset: %s" % mt.unsupported[:2]}
+            if not mt.systasks:
+                return n, {"oracle": "systask", "seed": seed, "what": "the Display/Finish statements of the design are missing from the text"}
+            pv = L.PyVSim(mt, name_ids)
+            nl = Netlist(fA, clocks=tuple(cdsA))
+        except (L.ParseError, L.Unsupported, KeyError, IndexError, TypeError, AssertionError) as ex:
+            return n, {"oracle": "systask", "seed": seed, "error": repr(ex)[:300],
+                       "what": "convert of a design with Display/Finish fails or emits unreadable text"}
+        from migen.fhdl.tools import list_targets
+        targets = list_targets(cap.f)
+        clks = [cd.clk for cd in cap.f.clock_domains]
+        rsts = [cd.rst for cd in cap.f.clock_domains if cd.rst is not None]
+        in_idx = [j for j, s_ in enumerate(iosB) if s_ not in targets and not any(s_ is c for c in clks)]
+        out_idx = [j for j, s_ in enumerate(iosB) if s_ in targets]
+        prev, trace = None, []
+        for t in range(cycles):
+            vals = stimulus(rng, [iosB[j] for j in in_idx], rsts, prev, t)
+            prev = vals
+            trace.append(vals)
+            for j, v in zip(in_idx, vals):
+                nl.set(iosA[j], v)
+                pv.state[ids.get(iosB[j])] = v & ((1 << iosB[j].nbits) - 1)
+            nl.settle()
+            pv.settle()
+            n += 1
+            for j in out_idx:
+                a, b = nl.getu(iosA[j]), pv.state[ids.get(iosB[j])]
+                if a != b:
+                    return n, {"oracle": "systask", "seed": seed, "cycle": t, "port": cap.ns.get_name(iosB[j]),
+                               "simulator": a, "verilog": b, "trace": trace[-6:], "what": what + ": port values differ"}
+            buf = io.StringIO()
+            fin_real = False
+            with contextlib.redirect_stdout(buf):
+                try:
+                    nl.tick(tuple(cdsA))
+                except NotImplementedError:
+                    fin_real = True          # Evaluator.execute reached the Finish statement
+            pv.displayed = []
+            pv.tick({ids.get(c) for c in clks})
+            want = []
+            for fmt, args in pv.displayed:
+                vs_ = [(v - (1 << w) if (sg_ and v >> (w - 1)) else v) for v, w, sg_ in args]
+                want.append(fmt % tuple(vs_))
+            got = buf.getvalue().splitlines()
+            if pv.finished != fin_real:
+                return n, {"oracle": "systask", "seed": seed, "cycle": t, "simulator_finished": fin_real,
+                           "verilog_finished": pv.finished, "trace": trace[-6:], "what": what + ": $finish / Finish reached on one side only"}
+            if fin_real:
+                systask_text_check.finishes += 1
+                break
+            systask_text_check.lines += len(want)
+            if got != want:
+                return n, {"oracle": "systask", "seed": seed, "cycle": t, "simulator_prints": got[:4], "verilog_displays": want[:4],
+                           "trace": trace[-6:], "what": what + ": the lines displayed in this cycle differ"}
+    return n, None
 
 
 def _lean_instance(lean, body, cap, inst, of, allsigs):
@@ -1446,6 +1770,138 @@ def mem_lean_tie(ctx, cycles, dis):
     ctx.log("Lean memory tie: %s" % tot)
 
 
+def memn_lean_tie(ctx, cycles, dis):
+    """Lean multi-port memory model (LitexModel/Fhdl/MemoryN.lean) against the real code: memories with 1-3 ports on
+    one or two clocks, every mode mix (incl. the multi-clock WRITE_FIRST / NO_CHANGE ports memory.py rewrites to
+    READ_FIRST: open finding), mixed granularities, read enables, two writers (never the same word in one instant):
+       edgeFN/readFN == the real simulator (MemoryToArray) on the design, every port's dat_r after EVERY instant;
+       edgeVN/readVN == the independent reading of the text memory.py emitted, every instant;
+       and where memCfgOkN holds and insOk held on every instant so far the two Lean sides must agree
+       (mem_ports_run_equiv_partial)."""
+    from migen.fhdl.specials import READ_FIRST, WRITE_FIRST, NO_CHANGE
+    from c01lib import Netlist
+    MemDutN = dict(memory_builders("quick"))["Memory/2port/rf-rw+wf-ro/8x6"]().__class__
+    WF, RF, NC = WRITE_FIRST, READ_FIRST, NO_CHANGE
+    MN = {WF: "wf", RF: "rf", NC: "nc"}
+    grid = [
+        (16, 8, [0xbeef, 1, 2], [dict(w=True, mode=WF, gran=8), dict(mode=RF, re=True)]),
+        (8, 6, [1, 2, 3, 4, 5, 6], [dict(w=True, mode=RF), dict(mode=WF)]),
+        (9, 5, [0x1ff, 0x100], [dict(w=True, mode=NC, gran=0), dict(asyn=True), dict(mode=WF, re=True)]),
+        (12, 7, None, [dict(mode=WF), dict(w=True, mode=WF, gran=4)]),
+        (16, 5, [0xbeef, 1, 2, 3, 0x1234], [dict(w=True, mode=WF, gran=8), dict(mode=RF, re=True), dict(w=True, mode=WF)]),
+        (12, 4, None, [dict(w=True, mode=NC, gran=4, re=True), dict(w=True, mode=RF, gran=6)]),
+        (72, 3, [(0xa5 << 64) | 0x0123456789abcdef, 7], [dict(w=True, mode=WF, gran=8), dict(asyn=True, w=True)]),
+        # two clock domains
+        (8, 8, [3, 1, 4, 1, 5], [dict(w=True, mode=RF, cd="sys"), dict(mode=RF, cd="b", re=True)]),
+        (10, 6, None, [dict(w=True, mode=RF, cd="sys", gran=5), dict(mode=RF, cd="b"), dict(asyn=True)]),
+        (8, 8, [3, 1, 4], [dict(w=True, mode=WF, cd="sys"), dict(mode=RF, cd="b")]),            # forced READ_FIRST (finding)
+        (8, 4, [9, 8], [dict(w=True, mode=NC, cd="sys"), dict(w=True, mode=WF, cd="b", re=True)]),  # forced READ_FIRST (finding)
+    ]
+    rng = ctx.rng
+    tot = dict(cases=0, instants=0, inok_instants=0, cfg_ok_cases=0)
+    for width, depth, init, ports in grid:
+        name = "memN %dx%d %s" % (width, depth, "+".join("%s%s%s@%s" % (
+            "as" if pd.get("asyn") else MN[pd.get("mode", WF)], "-w" if pd.get("w") else "", "-re" if pd.get("re") else "",
+            pd.get("cd", "sys")) for pd in ports))
+
+        def mk():
+            return MemDutN(width, depth, init, [dict(pd) for pd in ports])
+        try:
+            dA, dB = mk(), mk()
+            fA, iosA, cdsA = L.prepare(dA, allow_memories=True)
+            fB, iosB, cdsB = L.prepare(dB, allow_memories=True)
+            cap = L.convert_capture(fB, iosB)
+            sigs = L.module_signals(cap)
+            ids = SigIds()
+            for s_ in sigs:
+                ids.get(s_)
+            name_ids = {cap.ns.get_name(s_): ids.get(s_) for s_ in sigs}
+            mt = L.parse_module(cap.text, name_ids, allow_memories=True)
+            pv = L.PyVSim(mt, mt.name_ids, cap.result.data_files)
+            nl = Netlist(fA, clocks=tuple(cdsA))
+        except Exception as ex:
+            dis.append(Dis("memn-lean-exception", case=name, error=repr(ex)[:300]))
+            continue
+        doms = list(cdsA)
+        clk_of = {cd.name: cd.clk for cd in cap.f.clock_domains}
+        nwe = [(1 if (pd.get("gran", 0) == 0 or pd.get("gran", 0) >= width) else width // pd["gran"]) if pd.get("w") else 0
+               for pd in ports]
+        specs = []
+        for pd in ports:
+            g = pd.get("gran", 0)
+            specs.append("%d %s %d %d %d" % (0 if g >= width else g, "as" if pd.get("asyn") else MN[pd.get("mode", WF)],
+                                             1 if (pd.get("re") and not pd.get("asyn")) else 0, 1 if pd.get("w") else 0,
+                                             doms.index(pd.get("cd", "sys"))))
+        lines, reals, texts = [], [], []
+        for t in range(cycles):
+            tick = [d for d in doms if len(doms) == 1 or rng.random() < 0.6]
+            used = set()
+            toks = []
+            for n, pd in enumerate(ports):
+                adr = rng.randrange(1 << max(1, (depth - 1).bit_length()))
+                dw = rng.randrange(1 << width)
+                we = rng.choice([0, (1 << nwe[n]) - 1, rng.randrange(1 << nwe[n])]) if pd.get("w") else 0
+                eff = min(adr, depth - 1)
+                if we and eff in used:
+                    we = 0              # two ports writing one word in one instant: a race in Verilog, never driven
+                if we:
+                    used.add(eff)
+                re = rng.randrange(2)
+                for pvside, d in ((False, dA), (True, dB)):
+                    for nm, v in (("adr%d" % n, adr), ("dat_w%d" % n, dw), ("we%d" % n, we), ("re%d" % n, re)):
+                        sg = getattr(d, nm, None)
+                        if sg is None:
+                            continue
+                        if pvside:
+                            pv.state[ids.get(sg)] = v & ((1 << sg.nbits) - 1)
+                        else:
+                            nl.set(sg, v)
+                toks.append("%d %d %d %d" % (eff, dw, we, re))
+            nl.settle()
+            pv.settle()
+            nl.tick(tuple(tick))
+            pv.tick({ids.get(clk_of[d]) for d in tick})
+            reals.append([nl.getu(getattr(dA, "dat_r%d" % n)) for n in range(len(ports))])
+            texts.append([pv.state[ids.get(getattr(dB, "dat_r%d" % n))] for n in range(len(ports))])
+            lines.append("%d %s %s" % (len(tick), " ".join(str(doms.index(d)) for d in tick), " ".join(toks)))
+        ans = ctx.lean.call_batch(["memn %d %d ; %s ; %s ; %s" % (
+            width, depth, " ".join(map(str, init or [])), " ".join(specs), " ; ".join(lines))])[0]
+        if ans.startswith("bad"):
+            dis.append(Dis("driver", case=name, answer=ans[:100]))
+            continue
+        parts = ans.split(" ; ")
+        cfg_ok = parts[0].strip() == "1"
+        tot["cases"] += 1
+        tot["cfg_ok_cases"] += 1 if cfg_ok else 0
+        all_ok = cfg_ok
+        for t, (p_, rv, tv) in enumerate(zip(parts[1:], reals, texts)):
+            head, _, vpart = p_.partition("|")
+            hw = head.split()
+            inok, steq = hw[0] == "1", hw[1] == "1"
+            fF = [int(x) for x in hw[2:]]
+            fV = [int(x) for x in vpart.split()]
+            tot["instants"] += 1
+            if fF != [int(x) for x in rv]:
+                dis.append(Dis("edgeFN", case=name, instant=t, inputs=lines[max(0, t - 3):t + 1], lean=fF, real=[int(x) for x in rv],
+                               what="Lean edgeFN/readFN differs from the real simulator (MemoryToArray) on a multi-port memory"))
+                break
+            if fV != [int(x) for x in tv]:
+                dis.append(Dis("edgeVN", case=name, instant=t, inputs=lines[max(0, t - 3):t + 1], lean=fV, text=[int(x) for x in tv],
+                               what="Lean edgeVN/readVN differs from the independent reading of the memory.py text"))
+                break
+            all_ok = all_ok and inok
+            if all_ok:
+                tot["inok_instants"] += 1
+                if not steq or fF != fV:
+                    dis.append(Dis("theorem-contradicted", case=name, instant=t,
+                                   what="memCfgOkN and insOk held on every instant but edgeFN and edgeVN differ"))
+                    break
+    ctx.cov.add_cases("Lean multi-port memory model: edgeFN vs real simulator, edgeVN vs text reader, every instant (%d "
+                      "configurations: 1-3 ports x modes x granularities x re x one/two clocks x two writers)"
+                      % tot["cases"], tot["instants"], tot["inok_instants"], exhaustive=False)
+    ctx.log("Lean multi-port memory tie: %s" % tot)
+
+
 def l3_memories(ctx, cycles, dis):
     tot = dict(cases=0, unsupported=0, cycles=0)
     for name, mk in memory_builders(ctx.tier):
@@ -1752,11 +2208,17 @@ def correspond(ctx):
     if len(dis) <= 10:
         l2_random(ctx, 90 if quick else 900, 40 if quick else 120, dis)
     if len(dis) <= 10:
+        l2_option_variants(ctx, 18 if quick else 180, 30 if quick else 100, dis)
+    if len(dis) <= 10:
         l2_cores(ctx, 250 if quick else 2500, dis)
+    if len(dis) <= 10:
+        l2_cores_sim(ctx, 60 if quick else 600, dis, 4 if quick else 1)
     if len(dis) <= 10:
         l3_memories(ctx, 300 if quick else 3000, dis)
     if len(dis) <= 10:
         mem_lean_tie(ctx, 120 if quick else 1500, dis)
+    if len(dis) <= 10:
+        memn_lean_tie(ctx, 100 if quick else 1500, dis)
     if len(dis) <= 10:
         run_simulation_tie(ctx, 14 if quick else 140, 10 if quick else 100, 50 if quick else 120, dis)
     # independent golden reading (also the failing-input oracle): must accept the unchanged tree
@@ -1777,7 +2239,15 @@ def correspond(ctx):
         bad4 = bad4 or b4
     ctx.cov.add_cases("design converted through SimPlatform.get_verilog (platform ios, sim overrides, both comb emitters)",
                       n4, n4, exhaustive=False)
-    ctx.log("instances: %d checked; platform glue: %d cycles" % (n3, n4))
+    n6, bad6 = systask_text_check(ctx.rng, 6 if quick else 80, 40)
+    ctx.cov.add_cases("Display/Finish statements and the hierarchy block: real simulator vs independent reading of the text "
+                      "(%d displayed lines compared, %d runs ended by Finish)" % (systask_text_check.lines, systask_text_check.finishes),
+                      n6, n6, exhaustive=False)
+    if bad6 is not None:
+        dis.append(Dis("golden-oracle", **bad6))
+    n5 = platform_glue_lean(ctx, 60 if quick else 600, dis)
+    ctx.cov.add_cases("design converted through SimPlatform.get_verilog, both comb emitters, Lean tie", n5, n5, exhaustive=False)
+    ctx.log("instances: %d checked; platform glue: %d cycles (golden reading) + %d (Lean tie)" % (n3, n4, n5))
     for bad in (bad1, bad2, bad3, bad4):
         if bad is not None:
             dis.append(Dis("golden-oracle", **bad))
@@ -1839,7 +2309,7 @@ def oracle_expressions(rng, n_expr, log=None):
     return n, None
 
 
-def safe_module(rng, maxw=6):
+def safe_module(rng, maxw=6, sim_variant=False):
     """Tame module: every site fits statically, so text and simulator must agree on every cycle.  Unsigned
     registers/comb signals (some wider than 32/64 bits), optional signed inputs, one or two clock domains."""
     from migen import Module, ClockDomain, Signal
@@ -1869,6 +2339,14 @@ def safe_module(rng, maxw=6):
         m.comb += sg.stmts([c], rng.randint(0, 2))
         combs.append(c)
         readable = readable + [c]
+    if rng.random() < 0.6:
+        # one comb group driving 2-3 signals from shared If/Case structure, with later overrides of single targets
+        multi = [Signal(rng.randint(1, maxw), name_override="d%d" % k, reset=rng.choice([0, 1]))
+                 for k in range(rng.randint(2, 3))]
+        g = L.SafeGen(rng, list(readable), list(sins), complex_slices=True)
+        m.comb += L.multi_target_stmts(L.StmtGen(rng, SafeAdapter(g), allow_cat=not sim_variant), multi)
+        combs += multi
+        readable = readable + multi
     if rng.random() < 0.3:
         # a clock read as data (ClockSignal is lowered to the domain's clk signal by convert)
         from migen.fhdl.structure import ClockSignal
@@ -1944,10 +2422,14 @@ def run_safe_module(seed, cycles, rng=None, trace=None, ticks=None):
     from migen.fhdl.tools import list_targets
     from c01lib import Netlist
     kw = {"regular_comb": False} if seed % 4 == 3 else {}
+    if seed % 8 == 5:
+        # no initialisers in the text: a reg powers up X in Verilog; the reader starts it at the simulator's reset
+        # value (the property speaks of the declared reset/initial state), everything else is compared as usual
+        kw = {"regs_init": False}
 
     def build():
         r = random.Random(seed)
-        m, ios = safe_module(r)
+        m, ios = safe_module(r, sim_variant=bool(kw))
         f = m.get_fragment()
         return f, sorted(ios, key=lambda s: s.duid), [cd.name for cd in f.clock_domains]
     fA, iosA, cdsA = build()
@@ -1960,6 +2442,14 @@ def run_safe_module(seed, cycles, rng=None, trace=None, ticks=None):
         if mt.unsupported:
             return 0, None, True
         pv = L.PyVSim(mt, name_ids)
+        if kw.get("regs_init") is False:
+            for nm, d_ in mt.decls.items():
+                if d_["kind"] in ("r", "or"):
+                    if d_["init"] is not None:
+                        return 0, {"oracle": "golden-module", "seed": seed, "convert_options": kw, "signal": nm,
+                                   "what": "convert(regs_init=False) still emits an initialiser"}, False
+                    sg_ = sigs[name_ids[nm]]
+                    pv.state[name_ids[nm]] = sg_.reset.value & ((1 << sg_.nbits) - 1)
     except (L.ParseError, L.Unsupported, KeyError, IndexError, TypeError) as ex:
         return 0, {"oracle": "golden-module", "error": repr(ex), "seed": seed,
                    "what": "the text emitted for a safe module cannot be read"}, False
@@ -2397,6 +2887,53 @@ def search_slice_witness(ctx, wit, rng, tries=120):
     finally:
         ctx.lean = lean
     return None
+
+
+def candidate_probe_sim_cat_target():
+    """CANDIDATE finding (not listed in known_findings.json, NOT called from probes() until the coordinator lists it):
+    convert(regular_comb=False) on `b.eq(0); Cat(a, b).eq(y); If(en, b.eq(z))`.  `_generate_combinatorial_logic_sim`
+    keeps the Cat assignment for BOTH targets: for `a` it is the only statement, `_use_wire` holds and the text gets
+    `assign {b, a} = y;` although `_list_comb_wires` (which works on group_by_targets groups) declared a and b `reg`
+    - a continuous assignment to a reg (illegal Verilog) that also drives `b` a second time next to b's always block.
+    Returns (still_fails, what)."""
+    from migen import Module, Signal, If, Cat
+
+    class DUT(Module):
+        def __init__(self):
+            self.y, self.z, self.en = Signal(8, name_override="y"), Signal(4, name_override="z"), Signal(name_override="en")
+            self.a, self.b = Signal(4, name_override="a"), Signal(4, name_override="b")
+            self.comb += [self.b.eq(0), Cat(self.a, self.b).eq(self.y), If(self.en, self.b.eq(self.z))]
+    d = DUT()
+    cap = L.convert_capture(d, [d.y, d.z, d.en, d.a, d.b], regular_comb=False)
+    sigs = L.module_signals(cap)
+    ids = SigIds()
+    for s_ in sigs:
+        ids.get(s_)
+    name_ids = {cap.ns.get_name(s_): ids.get(s_) for s_ in sigs}
+    mt = L.parse_module(cap.text, name_ids)
+    regs = {name_ids[n_] for n_, dd in mt.decls.items() if dd["kind"] in ("r", "or")}
+    drivers = {}
+    bad_assign = False
+    for k, it in enumerate(mt.items):
+        if it[0] == "assign":
+            # left-hand side: `i <id> w s` or `k <n>` followed by n such identifiers
+            if it[1] == "i":
+                tg = {int(it[2])}
+            elif it[1] == "k":
+                tg = {int(it[3 + 4 * j + 1]) for j in range(int(it[2])) if it[3 + 4 * j] == "i"}
+            else:
+                tg = set()
+            if tg & regs:
+                bad_assign = True
+        else:
+            tg = {ids.get(t) for t in (d.a, d.b) if (" i %d " % ids.get(t)) in (" " + " ".join(it) + " ")}
+        for t in tg:
+            drivers.setdefault(t, []).append(k)
+    multi = sorted(t for t, l in drivers.items() if len(l) > 1)
+    fails = bad_assign or bool(multi)
+    return fails, ("convert(regular_comb=False): comb `Cat(a, b).eq(y)` sharing a target with other statements is emitted as "
+                   "`assign {b, a} = y;` on signals declared reg and drives b from two processes "
+                   "(continuous assignment to a reg: %s; multiply driven: %s)" % (bad_assign, multi))
 
 
 def probes(ctx):
